@@ -75,6 +75,9 @@ func pool() []unit {
 		{Dir: "header", ID: "hdr-rid", Text: "header /api X-Rid-Echo {request_id}"},
 		{Dir: "header", ID: "hdr-uri", Text: "header /tpl X-Orig-Uri {uri}"},
 		{Dir: "header", ID: "hdr-del", Text: "header /docs -Last-Modified"},
+		// a quoted value wrapped over two source lines with a trailing backslash
+		// (as people wrap long CSP values): the line after it is its own line
+		{Dir: "header", ID: "hdr-wrapped", Text: "header /a.txt X-Wrapped \"part one \\\n\t\tpart two\""},
 
 		{Dir: "errors", ID: "errors-pages", Text: "errors %LOG%/errors.log {\n\t\t404 errs/404.html\n\t\t401 %ROOT%/errs/401.html\n\t}", Single: true},
 		{Dir: "errors", ID: "errors-any", Text: "errors %LOG%/errors.log {\n\t\t* errs/generic.html\n\t}", Single: true},
